@@ -75,6 +75,24 @@ def gen_to_abs(C, gen, st):
     return ex.bind(ex.ev(g.iter, st, pfr), k)
 
 
+def new_symbols_in(terms, c0):
+    "does any term mention a constant created after counter value c0 (names end in !<n>)?"
+    for t in terms:
+        if t is None or isinstance(t, bool):
+            continue
+        fc = free_consts(t)
+        if fc is None:
+            return True
+        for n in fc:
+            if '!' in n:
+                try:
+                    if int(n.rsplit('!', 1)[1]) > c0:
+                        return True
+                except ValueError:
+                    pass
+    return False
+
+
 def pure_eval(C, expr, st, fr, what):
     """evaluate expr in a scratch copy of st; all outcomes must be normal and leave the heap
     unchanged.  returns [(delta_pc, value)]"""
@@ -87,14 +105,29 @@ def pure_eval(C, expr, st, fr, what):
     res = []
     for o in outs:
         if o.kind != 'ok':
-            if valid(C.assumptions(o.st, force=True), z3.BoolVal(False), 2000):
+            if valid(C.assumptions(o.st, force=True), z3.BoolVal(False), 1500):
                 continue        # infeasible once the quantified facts are taken into account
             raise Unsupported('%s may raise %s' % (what, o.exc))
         for k, a in o.st.heap.items():
             if k in heap0 and not a.eq(heap0[k]):
                 raise Unsupported('%s has a side effect on %s.%s' % (what, k[0], k[1]))
         res.append((o.st.pc[npc:], o.val, o.st))
-    return res, _sv._ctr[0] != c0
+    fresh = False
+    if _sv._ctr[0] != c0:
+        terms = []
+        if len(res) == 1:
+            # a single outcome: constraints added on the way (callee preconditions, allocation frontier) hold
+            # unconditionally here and are not part of the value
+            res = [([], res[0][1], res[0][2])]
+        for dpc, v, _s in res:
+            terms += list(dpc)
+            for x in (v.items if isinstance(v, STuple) else [v]):
+                if hasattr(x, 't'):
+                    terms.append(x.t)
+                if isinstance(x, SOpt):
+                    terms += [x.isnone, getattr(x.inner, 't', None)]
+        fresh = new_symbols_in(terms, c0)
+    return res, fresh
 
 
 def abs_comprehension(C, e, g, it, st, fr, as_list):
@@ -118,7 +151,7 @@ def abs_comprehension(C, e, g, it, st, fr, as_list):
     for c in g.ifs:
         res, fresh = pure_eval(C, c, scratch, cfr, 'comprehension filter')
         if fresh:
-            raise Unsupported('comprehension filter introduces new symbols')
+            raise Unsupported('comprehension filter introduces new symbols: ' + ast.unparse(e)[:90])
         parts = []
         for dpc, v, s2 in res:
             parts.append(z3.And(*(list(dpc) + [ex.truth(v, s2, cfr)])))
@@ -147,7 +180,7 @@ def abs_comprehension(C, e, g, it, st, fr, as_list):
         return ex.ok(R, st)
     res, fresh = pure_eval(C, e.elt, scratch, cfr, 'comprehension element')
     if fresh and not isinstance(res[0][1], SStr):
-        raise Unsupported('comprehension element introduces new symbols')
+        raise Unsupported('comprehension element introduces new symbols: ' + ast.unparse(e)[:90])
     val = res[0][1]
     for dpc, v2, _s in res[1:]:
         # several outcomes (conditional expressions): merged into one if-then-else value
@@ -653,12 +686,17 @@ def _simplified(a):
 
 
 def valid(asm, goal, timeout=3000):
-    s = z3.Solver()
-    s.set('timeout', timeout)
-    for a in asm:
-        s.add(a)
-    s.add(z3.Not(goal))
-    return s.check() == z3.unsat
+    for ematch in (True, False):
+        s = z3.Solver()
+        s.set('timeout', timeout)
+        if ematch:
+            s.set('smt.mbqi', False)
+        for a in asm:
+            s.add(a)
+        s.add(z3.Not(goal))
+        if s.check() == z3.unsat:
+            return True
+    return False
 
 
 def discover_writes(C, run_body, make_head, pre, fr, it_name, elem_term=None, rounds=4):
@@ -840,15 +878,6 @@ def cut_loop(C, kind, s, st, fr, L=None):
                 h.assume(t)
         return h
 
-    # ---- 1. what does the body write?
-    W = discover_writes(C, run_body, lambda w: make_head(w), pre, fr, i, elem_term)
-    if elem_term is not None:
-        consts.update(elem_constants(C, W, run_body, make_head, elem_term))
-    # ---- 2. candidate invariants
-    cands = counter_candidates(C, W, pre, None)
-    hk = ex.hooks.get('loop_candidates')
-    if hk:
-        cands += hk(C, kind, s, L, W, pre, fr, i)
     user = []
 
     def user_invs(state, it):
@@ -861,10 +890,21 @@ def cut_loop(C, kind, s, st, fr, L=None):
     if unode is not None:
         for idx, (lab, _) in enumerate(user_invs(pre, z3.IntVal(0))):
             user.append((lab, lambda st_, it, idx=idx: user_invs(st_, it)[idx][1]))
+    # ---- 1. what does the body write?
+    W = discover_writes(C, run_body, lambda w: make_head(w, user), pre, fr, i, elem_term)
+    if elem_term is not None:
+        consts.update(elem_constants(C, W, run_body, make_head, elem_term))
+    # ---- 2. candidate invariants
+    cands = counter_candidates(C, W, pre, None)
+    hk = ex.hooks.get('loop_candidates')
+    if hk:
+        cands += hk(C, kind, s, L, W, pre, fr, i)
     # ---- 3. Houdini over auto candidates (user invariants are assumed and checked as obligations)
     alive = list(cands)
     alive = [(lab, f) for lab, f in alive if _holds_init(C, pre, f, lab.startswith('Q:'))]
     for _round in range(6):
+        if not alive:
+            break       # nothing to infer: no exploratory run needed
         head = make_head(W, alive + user)
         with Muted(ex):
             outs = run_body(head)
@@ -878,7 +918,7 @@ def cut_loop(C, kind, s, st, fr, L=None):
                     t = f(o.st, i + 1)
                     if t is None:
                         continue
-                    if not (valid(C.assumptions(o.st, force=True), t, 3000) if full else valid_cheap(o.st, t)):
+                    if not (valid(C.assumptions(o.st, force=True), t, 1500) if full else valid_cheap(o.st, t)):
                         ok = False
                         if DEBUG:
                             print('HOUDINI drop', anchor, lab, 'at trace', o.st.trace[-4:])
@@ -962,7 +1002,7 @@ def _holds_init(C, pre, f, full=False):
     if t is None:
         return True
     if full:
-        return valid(C.assumptions(pre, force=True), t, 3000)
+        return valid(C.assumptions(pre, force=True), t, 1500)
     return valid_cheap(pre, t)
 
 
